@@ -630,7 +630,7 @@ func VH_ConcurrentResolve() {
 	digests := make([]string, n)
 	for i := 0; i < n; i++ {
 		i := i
-		g := vParseGroup(vGroups[i%len(vGroups)], "9"+strconv.Itoa(i)) // different messages per thread
+		g := vParseGroup(vGroups[(i+vParam("groupbase", 0))%len(vGroups)], "9"+strconv.Itoa(i)) // different messages per thread
 		vGo(func() {
 			e, _ := CoalesceMessages(g)
 			if e != nil {
@@ -642,7 +642,7 @@ func VH_ConcurrentResolve() {
 	vJoin()
 	// sequential reference (computed after the concurrent phase, so that the threads start on cold caches): each group coalesced and resolved on its own, against fresh caches
 	for i := 0; i < n; i++ {
-		g := vParseGroup(vGroups[i%len(vGroups)], "9"+strconv.Itoa(i))
+		g := vParseGroup(vGroups[(i+vParam("groupbase", 0))%len(vGroups)], "9"+strconv.Itoa(i))
 		e, _ := CoalesceMessages(g)
 		if e != nil {
 			ResolveIDsFromCaches(e, NewUserCache(1000000000*60), NewGroupCache(1000000000*60))
